@@ -209,10 +209,11 @@ pub fn check(s: &Scenario) -> CheckResult {
         }
     }
     // exact time-shift invariance
-    let times2: Vec<i64> = times.iter().map(|t| t + s.shift).collect();
+    let shift = if s.t0 > 0 { -s.shift.abs() } else { s.shift.abs() };
+    let times2: Vec<i64> = times.iter().map(|t| t + shift).collect();
     let (outs2, _) = run_real(kind, s.unit, &s.events, &times2);
     for i in 0..outs.len() {
-        ensure!(outs2[i].same(&outs[i].shifted(s.shift)), format!("C10/{}/time-shift", kname), "event {}: shifting all timestamps by {} changes the output from {:?} to {:?}", i, s.shift, outs[i], outs2[i]);
+        ensure!(outs2[i].same(&outs[i].shifted(shift)), format!("C10/{}/time-shift", kname), "event {}: shifting all timestamps by {} changes the output from {:?} to {:?}", i, shift, outs[i], outs2[i]);
     }
     let kinds: Vec<u8> = s.events.iter().map(|e| e.kind_code()).collect();
     let nontrivial = best_run >= 3 && unequal_dt && noncollinear;
@@ -248,6 +249,14 @@ impl Property for C10 {
     }
     fn check(s: &Scenario) -> CheckResult {
         check(s)
+    }
+    fn valid(s: &Scenario) -> bool {
+        KINDS.contains(&s.kind) && dom::grid(s.unit) && dom::t0_span(s.t0) && s.shift.abs() <= 1_000_000_000_000_000 && s.events.len() <= 64 && (s.wrong_unit.is_none() || (required_unit(s.kind).is_some() && dom::grid(s.wrong_unit.unwrap())))
+            && s.events.iter().all(|e| match e {
+                Ev::P(v, dt) => dom::moderate(*v) && dom::dt_pos(*dt),
+                Ev::A => true,
+                Ev::E(c) => *c <= 2,
+            })
     }
     fn extra_coverage() -> std::collections::BTreeMap<String, serde_json::Value> {
         let mut m = std::collections::BTreeMap::new();
